@@ -84,20 +84,38 @@ def check_python(report, table):
     gm = m.func("gapic.schema.api.API._get_methods_from_service")
     SP = gm.node.args.args[1].arg
     r1.instance("selector match")
-    ok = find_match("'{}.{}.{}'.format(_SP_.DESCRIPTOR.package, _S_.name, _M_.name)", gm.node, {"_SP_": SP})[0] is not None
-    loop = [n for n in gm.node.body if isinstance(n, ast.For) and ast.unparse(n.iter) == "self.service_yaml_config.http.rules"]
-    ok = ok and len(loop) == 1 and isinstance(loop[0].body[0], ast.If) and pmatch("_R_.selector in _MS_", loop[0].body[0].test) is not None
-    r1.check(ok, p, gm.node.lineno, "_get_methods_from_service", "a mixin method is exposed iff its fully-qualified name is the selector of an http rule in the YAML")
-    r1.check(find_match("_X_.options.Extensions[annotations_pb2.http].CopyFrom(_R_)", gm.node)[0] is not None, p, gm.node.lineno, "http rule copied",
-             "the YAML rule (verb, path, body) must be attached to the exposed method")
+    from ..pymodel import nfunc, find_match_ast, nreturn, decision_leaves
+    from ..pynorm import norm_expr
+    from .common_rules import stmt_guards, local_env
+    ngm = nfunc(m, gm)
+    # selectors are '<package>.<Service>.<Method>' of the descriptor passed in
+    sel_pat = norm_expr(ast.parse("f'{" + SP + ".DESCRIPTOR.package}.{_S_.name}.{_M_.name}'", mode="eval").body)
+    ok = find_match_ast(sel_pat, ngm)[0] is not None
+    # the http rule is copied exactly under `rule.selector in <selectors>`, for every rule of the YAML
+    copies = [(g, st) for g, st in stmt_guards(ngm, local_env(ngm)) if isinstance(st, ast.Expr) and isinstance(st.value, ast.Call)
+              and ast.unparse(st.value.func).endswith(".options.Extensions[annotations_pb2.http].CopyFrom")]
+    ok2 = len(copies) == 1
+    if ok2:
+        g, st = copies[0]
+        loops = [x for x in g if x[0] == "for"]
+        conds = [x for x in g if x[0] != "for"]
+        ok2 = len(loops) == 1 and loops[0][2] == "self.service_yaml_config.http.rules" and len(conds) == 1 and conds[0][1] is True \
+            and conds[0][0].startswith(f"{loops[0][1]}.selector in ") and ast.unparse(st.value.args[0]) == loops[0][1]
+    r1.check(ok and ok2, p, gm.node.lineno, "_get_methods_from_service", "a mixin method is exposed iff its fully-qualified name is the selector of an http rule in the YAML")
+    r1.check(ok2, p, gm.node.lineno, "http rule copied", "the YAML rule (verb, path, body) must be attached to the exposed method")
     ov = m.func("gapic.schema.api.API._has_iam_overrides")
     r1.instance("IAM overrides by exact name")
-    tests = [n for n in ast.walk(ov.node) if isinstance(n, ast.If) and any(isinstance(x, ast.Return) and ast.unparse(x.value) == "True" for x in n.body)]
-    ok = len(tests) == 1 and pmatch("_N_ in _S_.methods", tests[0].test) is not None
-    r1.check(ok, p, ov.node.lineno, f"override test `{ast.unparse(tests[0].test) if tests else None}`",
+    e = nreturn(m, ov, keep={"_get_methods_from_service"})
+    leaves = decision_leaves(e) if e is not None else []
+    yes = [v for c, v in leaves if ("self.has_iam_mixin", True) in c]
+    no = [v for c, v in leaves if ("self.has_iam_mixin", False) in c]
+    IAM = "self._get_methods_from_service(iam_policy_pb2)"
+    forms = (f"any((_c1_1 in _c1.methods for _c1 in self.services.values() for _c1_1 in {IAM}))",
+             f"any((_c1 in _c1_1.methods for _c1 in {IAM} for _c1_1 in self.services.values()))")
+    okv = len(yes) == 1 and ast.unparse(yes[0]) in forms
+    r1.check(okv, p, ov.node.lineno, f"override test `{ast.unparse(yes[0])[:120] if yes else None}`",
              "IAM mixins yield only to an RPC of the API with exactly the same name (membership in service.methods), not to names that merely contain it")
-    first = [n for n in ov.node.body if isinstance(n, ast.If)]
-    r1.check(first and ast.unparse(first[0].test) == "not self.has_iam_mixin", p, ov.node.lineno, "guard", "no override without the IAM mixin")
+    r1.check(len(no) == 1 and ast.unparse(no[0]) == "False" and len(leaves) == 2, p, ov.node.lineno, "guard", "no override without the IAM mixin")
     # MIXINS_MAP
     mod = m.module("gapic.schema.mixins")
     mp = mod.assigns.get("MIXINS_MAP")
